@@ -145,8 +145,23 @@ def native_replay(pkg, witnesses, repeat=1, timeout=900):
         ov = os.path.join(tmp, "overlay.json")
         json.dump({"Replace": replace}, open(ov, "w"))
         env = dict(GOENV, VERIF_WITNESS_DIR=wdir, VERIF_REPEAT=str(repeat))
-        r = subprocess.run(["go", "test", "-tags", "verif", "-vet=off", "-count=1", "-overlay", ov, "-run", "^TestVerifReplay$",
-                            "-timeout", "%ds" % timeout, "./" + pkg], cwd=REPO_GO, env=env, capture_output=True, text=True)
+        crashed = set()
+        for _round in range(6):
+            r = subprocess.run(["go", "test", "-tags", "verif", "-vet=off", "-count=1", "-overlay", ov, "-run", "^TestVerifReplay$",
+                                "-timeout", "%ds" % timeout, "./" + pkg], cwd=REPO_GO, env=env, capture_output=True, text=True)
+            missing = [i for i in range(len(witnesses)) if i not in crashed and not os.path.exists(os.path.join(wdir, "%05d.json.out" % i))]
+            if not missing or r.returncode == 0:
+                break
+            # the test process died (fatal error such as a stack overflow cannot be recovered): the first
+            # witness without a record is the one that killed it; replay the rest without it
+            first = missing[0]
+            crashed.add(first)
+            tail = (r.stdout + r.stderr)[-400:]
+            json.dump([{"kind": "crash", "detail": tail}], open(os.path.join(wdir, "%05d.json.out" % first), "w"))
+            os.rename(os.path.join(wdir, "%05d.json" % first), os.path.join(wdir, "%05d.crashed" % first))
+            for i in range(len(witnesses)):
+                if i < first and os.path.exists(os.path.join(wdir, "%05d.json" % i)):
+                    os.rename(os.path.join(wdir, "%05d.json" % i), os.path.join(wdir, "%05d.done" % i))
         out = []
         for i in range(len(witnesses)):
             p = os.path.join(wdir, "%05d.json.out" % i)
@@ -346,6 +361,9 @@ def engine_a_check(pid, tier, jobs, required_reach, assumptions, level_note, out
                 out.unconfirmed.append("reach witness of %s/%s does not reproduce natively: %s" % (h, lab, json.dumps(ev)[:300]))
             else:
                 fails = [e for e in ev if e["kind"] == "assert-fail" and e["label"] == lab]
+                if not fails and any(e["kind"] == "crash" for e in ev):
+                    fails = [{"class": v.get("class", "")}]
+                    v["detail"] = (v.get("detail") or "") + " - the native replay of this counterexample killed the test process (fatal error): " + [e for e in ev if e["kind"] == "crash"][0]["detail"][-160:].replace("\n", " ")
                 if fails:
                     validated += 1
                     v["_native_class"] = fails[0].get("class", "")
@@ -631,10 +649,10 @@ def c13(tier):
     jobs = [T("transformer", "VerifC13_PrinterFrozen", {"N": W(tier, 1, 2)}),
             T("transformer", "VerifC02_Shapes", {"NODES": 4, "DEPTH": 2, "WIDTH": 3}),
             T("transformer", "VerifC08_PrinterDegenerate", {"NODES": 3, "DEPTH": 2}),
-            T("graph", "VerifC13_GraphHistory"), fam(0, "K", **FIRST),
+            T("graph", "VerifC13_GraphHistory"), fam(6, "K", **FIRST),
             T("transformer", "VerifC07_Merge", {"SCEN": 2, "N": 1, "NR": 1})]
     out = engine_a_check("C13", tier, jobs, {"VerifC13_PrinterFrozen": ["printed"], "VerifC02_Shapes": ["accepted"], "VerifC08_PrinterDegenerate": ["accepted"],
-                                             "VerifC13_GraphHistory": ["built"], "VerifGraph_Family": ["accepted"], "VerifC07_Merge": ["accepted"]},
+                                             "VerifC13_GraphHistory": ["built"], "VerifGraph_Family": ["return"], "VerifC07_Merge": ["accepted"]},
                          ["data races, goroutines and the parser's prediction-cache history are outside (not applicable to this technique)",
                           "decided: no store into anything reachable from the argument (frozen-object monitor) and no store into a package-level variable of the repository"], "",
                          bounds={"printer": "modular models with symbolic names (so that the sort really swaps), all C02 shapes <= 4 nodes, degenerate protos"})
@@ -688,6 +706,8 @@ FAMS = {
     "H": ({"R": 2, "L10": LEAVES_ALL, "L11": LEAVES_ALL}, "H: two relations, all 22 leaves each (incl. multi-userset, wildcard+userset, conditioned restrictions) (400 models after de-duplication)"),
     "J": ({"R": 2, "PARENTS": 3, "L10": M(0, 16, 19, 21), "L20": M(16, 19), "L11": M(0, 1, 4, 19)}, "J: tupleset p: [doc, doc with k, org] (duplicate conditioned parent followed by another parent)"),
     "K": ({"R": 2, "L10": M(0, 1, 7, 8, 13, 14, 15), "L20": M(16, 19), "REV0": 1, "L11": M(0, 4, 16)}, "K: swapped operand order (computed userset before the direct assignment), conditioned/duplicate restrictions"),
+    "N": ({"R": 3, "L10": M(16, 17), "L20": M(16, 17), "OP0": 2, "L11": M(0, 1), "L21": M(21), "OP1": 1, "L12": M(0, 1)},
+          "N: a = y | z | y and z | z and y, b = [user]|[user,employee] optionally `or b from p` (recursive), c = [user]|[user,employee] (48 models)"),
     "L": ({"R": 3, "L10": M(0, 4, 5, 9, 10, 16), "L11": M(0, 4, 5, 9, 10, 16, 17), "L12": M(0, 4, 5, 9, 10, 16, 17), "L22": M(16, 17), "OP2": 3},
           "L: three relations with multi-userset restrictions (interlocking tuple cycles)"),
 }
@@ -727,11 +747,11 @@ def kernels():
 
 
 RA, RR, FI, AL = (ROOT_ALL, "all root orders of AssignWeights"), (ROOT_ROT, "every start node of AssignWeights (rotations + reverse)"), (FIRST, "first order"), (ALL, "all orders of all maps")
-THOROUGH_GRAPH = [("B", *RA), ("D", *FI), ("E", *RA), ("P", *RA), ("A", *AL), ("G", *RR), ("H", *RA), ("K", *RA), ("L", *RA), ("J", *RR)]
+THOROUGH_GRAPH = [("N", *RA), ("B", *RA), ("D", *FI), ("E", *RA), ("P", *RA), ("A", *AL), ("G", *RR), ("H", *RA), ("K", *RA), ("L", *RA), ("J", *RR)]
 
 
 def c04(tier):
-    graph_check("C04", 4, tier, [("B", *FI), ("J", *FI), ("K", *FI), ("H", *RR), ("L", *RR), ("C", *RA)], THOROUGH_GRAPH, extra_jobs=kernels())
+    graph_check("C04", 4, tier, [("B", *FI), ("J", *FI), ("K", *FI), ("N", *RA), ("H", *RR), ("L", *RR), ("C", *RA)], THOROUGH_GRAPH, extra_jobs=kernels())
 
 
 def c05(tier):
@@ -741,7 +761,7 @@ def c05(tier):
 def c06(tier):
     twin = lambda name: dict(T("graph", "VerifC06_OperandOrder", dict(FAMS[name][0]), **FIRST), _reach=["accepted"])  # noqa
     graph_check("C06", 6, tier, [("A", *AL), ("C", *RA), ("H", *RR), ("L", *RR), ("K", *RR)], THOROUGH_GRAPH, reach=["return"],
-                extra_jobs=[twin("B"), twin("K")] + ([twin("D")] if tier == "thorough" else []))
+                extra_jobs=[twin("B"), twin("K"), twin("N")] + ([twin("D")] if tier == "thorough" else []))
 
 
 def c10(tier):
